@@ -115,9 +115,14 @@ def run_ts(rec, idx, out):
     jobs = [(op, dt, st) for dt, st in variants]
     if op == 'diff':
         jobs.append(('dlog', 'float64', (idx + 5) % 8))
+        jobs.append(('dlog', 'float64-signed', (idx + 6) % 8))
     for fn, dt, style in jobs:
         out['n'] += 1
-        if fn == 'dlog':
+        if fn == 'dlog' and dt == 'float64-signed':
+            # negative, zero and positive elements: dlog is *defined* as diff(log x, d), so it is NaN wherever log x is
+            x = real_array(rec['x'], float) - 1.0
+            x[1::3] = -x[1::3] - 2.0
+        elif fn == 'dlog':
             x = real_array(rec['x'], float) + 1.0     # strictly positive, exactly representable
         else:
             x = real_array(rec['x'], np.dtype(dt))
@@ -146,15 +151,20 @@ def run_ts(rec, idx, out):
         elif r.shape != (len(rec['x']),):
             problems.append(('length', f'result length {r.shape} != input length {len(rec["x"])}'))
         elif fn == 'dlog':
-            lx = np.log(x)
+            with np.errstate(all='ignore'):
+                lx = np.log(x)
             fp = set(rec['fp'])
             bad = []
             for i in range(len(lx)):
                 if i in fp:
                     ok = same_values(r[i], real(fill))
                 else:
-                    ref = lx[i] - lx[i - p]
-                    ok = bool(abs(r[i] - ref) <= 4 * np.spacing(max(abs(ref), abs(lx[i]), abs(lx[i - p]))))
+                    with np.errstate(all='ignore'):
+                        ref = lx[i] - lx[i - p]
+                    if not np.isfinite(ref):
+                        ok = same_values(r[i], ref)
+                    else:
+                        ok = bool(np.isfinite(r[i]) and abs(r[i] - ref) <= 4 * np.spacing(max(abs(ref), abs(lx[i]), abs(lx[i - p]))))
                 if not ok:
                     bad.append(i)
             if bad:
